@@ -9,7 +9,10 @@ import (
 	"crypto/rand"
 	"flag"
 	"fmt"
+	"math/big"
 	mrand "math/rand"
+	"runtime"
+	"strings"
 	"sync"
 
 	"github.com/xelaj/mtproto"
@@ -17,6 +20,10 @@ import (
 	"github.com/xelaj/mtproto/telegram"
 	"github.com/xelaj/mtproto/verifharness/refsrv"
 )
+
+type readerFunc func(p []byte) (int, error)
+
+func (f readerFunc) Read(p []byte) (int, error) { return f(p) }
 
 func init() {
 	commands["provenance"] = func(args []string) {
@@ -101,6 +108,154 @@ func init() {
 		}
 		seen = map[string][][]byte{}
 		mu.Unlock()
+		degenerate := func(name string, v []byte) string {
+			n := new(big.Int).SetBytes(v)
+			if name == "g_b" && (n.Cmp(big.NewInt(1)) <= 0 || n.Cmp(new(big.Int).Sub(refsrv.DHPrime, big.NewInt(1))) >= 0) {
+				return "g_b is 0, 1 or p-1"
+			}
+			if n.Sign() == 0 {
+				return "all bytes zero"
+			}
+			run := 1
+			for j := 1; j < len(v); j++ {
+				if v[j] == v[j-1] {
+					run++
+					if run >= 8 {
+						return "eight equal bytes in a row"
+					}
+				} else {
+					run = 1
+				}
+			}
+			return ""
+		}
+		// (d0) the nonce draws themselves, from many goroutines at once: each value is somebody's own, fresh draw
+		{
+			var wg sync.WaitGroup
+			var dmu sync.Mutex
+			all := map[string]int{}
+			bad := 0
+			for gI := 0; gI < 16; gI++ {
+				wg.Add(1)
+				go func(gI int) {
+					defer wg.Done()
+					for k := 0; k < 1500; k++ {
+						var v []byte
+						if k%2 == 0 {
+							v = refsrv.LeftPad(tl.RandomInt128().Bytes(), 16)
+						} else {
+							v = refsrv.LeftPad(tl.RandomInt256().Bytes(), 32)
+						}
+						why := degenerate("nonce", v)
+						dmu.Lock()
+						if _, dup := all[string(v)]; dup && why == "" {
+							why = "the same value was handed out twice"
+						}
+						all[string(v)] = gI
+						if why != "" && bad < 3 {
+							bad++
+							rep.Disagree("C19:concurrent-draws", fmt.Sprintf("a nonce drawn while 15 other goroutines draw: %s (%x)", why, truncHex(v)), map[string]interface{}{"what": "nonce"})
+						}
+						dmu.Unlock()
+					}
+				}(gI)
+			}
+			wg.Wait()
+			rep.Evaluations += len(all)
+		}
+		// (d) key exchanges running at the same moment: every client draws its own values
+		for round := 0; round < 3; round++ {
+			var wg sync.WaitGroup
+			for k := 0; k < 8; k++ {
+				wg.Add(1)
+				go func() {
+					defer wg.Done()
+					defer func() { recover() }()
+					newClient().CreateConnection()
+				}()
+			}
+			wg.Wait()
+		}
+		mu.Lock()
+		for _, name := range []string{"nonce", "new_nonce", "g_b"} {
+			vs := seen[name]
+			dup := map[string]int{}
+			for i, v := range vs {
+				rep.Evaluations++
+				if why := degenerate(name, v); why != "" {
+					rep.Disagree("C19:degenerate-under-concurrency:"+name, fmt.Sprintf("%s of concurrent key exchange %d: %s (%x)", name, i+1, why, truncHex(v)), map[string]interface{}{"what": name})
+				}
+				if j, ok := dup[string(v)]; ok {
+					rep.Disagree("C19:repeated-under-concurrency:"+name, fmt.Sprintf("%s of concurrent key exchanges %d and %d is the same value %x", name, j+1, i+1, truncHex(v)), map[string]interface{}{"what": name})
+				}
+				dup[string(v)] = i
+			}
+		}
+		seen = map[string][][]byte{}
+		mu.Unlock()
+		// (e) the OS source fails (for the client; the reference server keeps the real one): an exchange may fail loudly,
+		// it may never go on with a value that did not come from the source
+		realReader := rand.Reader
+		type faultPlan struct{ skip, fails int }
+		var plans []faultPlan
+		for skip := 0; skip <= 3; skip++ { // the draws of one exchange: nonce, new_nonce, the DH exponent
+			for _, fails := range []int{1, 3, 1 << 30} {
+				plans = append(plans, faultPlan{skip, fails})
+			}
+		}
+		for _, fp := range plans {
+			plan := fp.fails
+			skip := fp.skip
+			left := plan
+			var fmu sync.Mutex
+			rand.Reader = readerFunc(func(p []byte) (int, error) {
+				pcs := make([]uintptr, 48)
+				fr := runtime.CallersFrames(pcs[:runtime.Callers(2, pcs)])
+				for {
+					f, more := fr.Next()
+					if strings.Contains(f.Function, "verifharness/refsrv") {
+						return realReader.Read(p)
+					}
+					if !more {
+						break
+					}
+				}
+				fmu.Lock()
+				fail := false
+				if skip > 0 {
+					skip--
+				} else {
+					fail = left > 0
+					left--
+				}
+				fmu.Unlock()
+				if fail {
+					return 0, fmt.Errorf("injected failure of the OS random source")
+				}
+				return realReader.Read(p)
+			})
+			var cerr error
+			func() {
+				defer func() {
+					if p := recover(); p != nil {
+						cerr = fmt.Errorf("panic: %v", p)
+					}
+				}()
+				cerr = newClient().CreateConnection()
+			}()
+			rand.Reader = realReader
+			mu.Lock()
+			for _, name := range []string{"nonce", "new_nonce", "g_b"} {
+				for _, v := range seen[name] {
+					rep.Evaluations++
+					if why := degenerate(name, v); why != "" {
+						rep.Disagree("C19:value-without-source:"+name, fmt.Sprintf("with the OS source failing %d time(s) after "+fmt.Sprint(fp.skip)+" good read(s) the client went on with %s = %x (%s); CreateConnection: %v", plan, name, truncHex(v), why, cerr), map[string]interface{}{"what": name, "failures": plan})
+					}
+				}
+			}
+			seen = map[string][][]byte{}
+			mu.Unlock()
+		}
 		srv.HS.Lie = &refsrv.Lie{Step: "dhParams", Field: "kind", How: "fail"}
 		m := newClient()
 		if err := m.CreateConnection(); err == nil {
